@@ -34,10 +34,10 @@ class Inputs:
         if self.symbolic:
             v = SR(z3.Real(name))
         elif self.values is not None:
-            v = float(self.values.get(name, 0.0))
+            v = np.float64(self.values.get(name, 0.0))
         else:
-            v = pysym.mval(self.model, z3.Real(name))
-        self.used[name] = None if self.symbolic else v
+            v = np.float64(pysym.mval(self.model, z3.Real(name)))
+        self.used[name] = None if self.symbolic else float(v)
         return v
 
     def boolean(self, name):
@@ -164,7 +164,7 @@ class Raised:
 
 # ---------------------------------------------------------------- driver
 def run(hname, fn, timeout_ms=10000, max_paths=4000, region=None, expect_exc=(), engine_timeout_ms=5000,
-        twin=True, describe=None):
+        twin=True, describe=None, known_regions=None):
     """
     Explore fn symbolically, decide every claim on every path, replay counterexamples.
     Returns a list of result dicts (see vlib.core.Check.merge).
@@ -186,36 +186,51 @@ def run(hname, fn, timeout_ms=10000, max_paths=4000, region=None, expect_exc=(),
                 if isinstance(path.exc, tuple(expect_exc)):
                     continue
                 claims = [('no exception', False, repr(path.exc)[:200])]
+            pending = []
             for item in claims or []:
                 cname, claim = item[0], item[1]
-                tag = f'{cname}'
-                if claim is True:
-                    reached.add(cname)
-                    continue
-                if isinstance(claim, (bool, np.bool_)) and claim:
-                    reached.add(cname)
-                    continue
-                zc = _z(claim)
-                st, mdl, dt = pysym.decide(path.cond(), zc, timeout_ms)
                 reached.add(cname)
+                if claim is True or (isinstance(claim, (bool, np.bool_)) and claim):
+                    continue
+                pending.append((cname, _z(claim)))
+            if len(pending) > 1:
+                # one query for the conjunction; only if it is not proved are the claims decided one by one
+                st, mdl, dt = pysym.decide(path.cond(), z3.And(*[c for _, c in pending]), timeout_ms)
                 if st == 'unsat':
-                    res.append(dict(harness=hname, name=f'{cname} @path{npaths}', status='unsat', secs=dt))
-                elif st == 'sat':
-                    ok, info = _replay(fn, mdl, cname)
-                    if ok:
-                        rg = region(info['inputs'], cname) if region else cname
-                        res.append(dict(harness=hname, name=f'{cname} @path{npaths}', status='sat-replayed', secs=dt))
-                        res.append(dict(kind='violation', harness=hname, region=rg,
-                                        desc=(describe(info['inputs'], cname) if describe else
-                                              f'{hname}: claim "{cname}" is false on the real code for inputs {info["inputs"]}'
-                                              + (f' ({info["detail"]})' if info.get('detail') else '')),
-                                        replay=dict(harness=hname, claim=cname, inputs=info['inputs'],
-                                                    detail=info.get('detail'))))
+                    for k, (cname, _) in enumerate(pending):
+                        res.append(dict(harness=hname, name=f'{cname} @path{npaths}', status='unsat',
+                                        secs=dt if k == 0 else 0.0))
+                    continue
+            for cname, zc in pending:
+                excl = []
+                for _round in range(4):
+                    st, mdl, dt = pysym.decide(path.cond() + excl, zc, timeout_ms)
+                    again = False
+                    if st == 'unsat':
+                        res.append(dict(harness=hname, name=f'{cname} @path{npaths}' + (' outside known regions' if excl else ''),
+                                        status='unsat', secs=dt))
+                    elif st == 'sat':
+                        ok, info = _replay(fn, mdl, cname)
+                        if ok:
+                            rg = region(info['inputs'], cname) if region else cname
+                            res.append(dict(harness=hname, name=f'{cname} @path{npaths}', status='sat-replayed', secs=dt))
+                            res.append(dict(kind='violation', harness=hname, region=rg,
+                                            desc=(describe(info['inputs'], cname) if describe else
+                                                  f'{hname}: claim "{cname}" is false on the real code for inputs {info["inputs"]}'
+                                                  + (f' ({info["detail"]})' if info.get('detail') else '')),
+                                            replay=dict(harness=hname, claim=cname, inputs=info['inputs'],
+                                                        detail=info.get('detail'))))
+                            # a listed known-finding region: look for a violation OUTSIDE it as well
+                            if known_regions and rg in known_regions:
+                                excl = excl + [z3.Not(known_regions[rg])]
+                                again = True
+                        else:
+                            res.append(dict(harness=hname, name=f'{cname} @path{npaths}', status='sat-not-reproduced', secs=dt,
+                                            detail=info))
                     else:
-                        res.append(dict(harness=hname, name=f'{cname} @path{npaths}', status='sat-not-reproduced', secs=dt,
-                                        detail=info))
-                else:
-                    res.append(dict(harness=hname, name=f'{cname} @path{npaths}', status='unknown', secs=dt))
+                        res.append(dict(harness=hname, name=f'{cname} @path{npaths}', status='unknown', secs=dt))
+                    if not again:
+                        break
     except pysym.Abort as e:
         res.append(dict(harness=hname, name='exploration', status='unknown', detail=f'bound exceeded: {e}'))
     res.append(dict(kind='paths', n=npaths))
